@@ -1615,8 +1615,11 @@ class AsyncGraph:
         self._synchronizer._must_reset = True
 
         # Initiate stop (this unblocks the root's step, that is waiting for an action).
-        if len(self._synchronizer.action) > 0:
+        # NOTE: do not test the length first; the supervisor's thread may pop its action future in between.
+        try:
             self._synchronizer.action[-1].cancel()
+        except IndexError:  # No pending action
+            pass
 
         # Wait for all nodes to stop
         [f.result() for f in fs]  # Wait for all nodes to stop
